@@ -23,7 +23,7 @@ RULE = (
     "become runnable at the same instant and the schedule decides who goes first, at line granularity) and 'after start' "
     "are all produced). Time is Engine DET's fake clock; threading.Timer, Thread, Condition, Event and the executor inside "
     "reactivex are the cooperative replacements of vlib/det.py, every timer/loop/worker thread is a controlled logical thread. "
-    "det-enum: every schedule with <=1 (quick) / <=2 (thorough) preemptions of 11 fixed small programs x 5 scheduler kinds; "
+    "det-enum: every schedule with <=1 (quick) / <=2 (thorough) preemptions of 12 fixed small programs x 5 scheduler kinds; "
     "det-gen: generated programs (1-5 operations or schedule/sleep/dispose gadgets, optional cancelling thread) with <=3 drawn "
     "preemption points; "
     "imm-enum / imm: ImmediateScheduler on one thread (DET free mode), all operation lists up to 3 over a small alphabet + "
@@ -343,6 +343,7 @@ def _det_programs():
     yield [[_S("rel", 1, [["w", 1], ["x", 1]]), _S("rel", 1)]]
     yield [[_S("rel", 1, [["w", 2]]), _S("rel", 1)], [["w", 2], ["x", 1]]]
     yield [[_S("now", 0, [_S("rel", 1, [["w", 1], ["x", 2]]), _S("rel", 1)])]]
+    yield [[_S("rel", 1, [["w", 2]]), _S("rel", 2), _S("abse", 4)]]  # an action sleeps past the next due time: explained lateness
 
 
 def _det_enum(tier):
@@ -357,7 +358,7 @@ _KD = [["now", 0], ["now", 0], ["rel", 0], ["rel", -1], ["rel", 1], ["rel", 2], 
 _x = st.tuples(st.just("x"), st.integers(0, 7)).map(list)
 _w = st.tuples(st.just("w"), st.sampled_from([1, 1, 2, 2, 3, 5])).map(list)
 _leaf = st.builds(lambda k: ["s", k[0], k[1], []], st.sampled_from(_KD))
-_s = st.builds(lambda k, b: ["s", k[0], k[1], b], st.sampled_from(_KD), st.lists(st.one_of(_leaf, _x), max_size=2))
+_s = st.builds(lambda k, b: ["s", k[0], k[1], b], st.sampled_from(_KD), st.lists(st.one_of(_leaf, _x, _w), max_size=2))
 # gadget: schedule a delayed action, sleep (exactly / one ms short of / one ms past) its delay, dispose THAT action
 # ("x", "@" is resolved to the action's number when the program is assembled): this is what makes the cancellation meet
 # the wake-up of the timer / loop thread at the same fake instant often enough
